@@ -60,8 +60,22 @@ def build_model(spec: Dict[str, Any]) -> List[bytes]:
     parts = [doc]
     if spec.get("split", 1) > 1:
         parts = models.split(doc, random.Random(spec["split_seed"]), spec["split"])
+    if spec.get("repeat"):
+        # one more file without declarations; listed more than once on the command line (see path_list)
+        parts = parts + [{"metaData": copy.deepcopy(parts[0]["metaData"]), **{s_: [] for s_ in models.SECTIONS}}]
     cr = random.Random(spec.get("split_seed", 0) ^ 0x5EED) if spec.get("compact") else None
     return [models.dumps(p, cr) for p in parts]
+
+
+def path_list(files: List[str], spec: Dict[str, Any]) -> List[str]:
+    """The --model list for the written files: in order, or (spec['repeat']) with the declaration-free
+    last file inserted at the given positions, i.e. the same path more than once in the list."""
+    if not spec.get("repeat"):
+        return files
+    real, empty = list(files[:-1]), files[-1]
+    for pos in sorted(spec["repeat"], reverse=True):
+        real.insert(min(pos, len(real)), empty)
+    return real
 
 
 def gen_model_spec(r: random.Random, plugin: str, tier: str, allow_full: bool = True) -> Dict[str, Any]:
@@ -78,6 +92,11 @@ def gen_model_spec(r: random.Random, plugin: str, tier: str, allow_full: bool = 
     if r.random() < 0.3:
         spec["split"] = r.choice([2, 2, 3])
         spec["split_seed"] = r.randrange(2**40)
+        if r.random() < 0.4:
+            # a path that occurs more than once in the list of model files
+            spec["repeat"] = sorted(r.randint(0, spec["split"]) for _ in range(r.choice([2, 2, 3])))
+    elif r.random() < 0.06:
+        spec["repeat"] = sorted(r.randint(0, 1) for _ in range(2))
     if r.random() < 0.2:
         spec["compact"] = True
         spec.setdefault("split_seed", r.randrange(2**40))
@@ -100,6 +119,7 @@ def variant_of(spec: Dict[str, Any], r: random.Random) -> Dict[str, Any]:
     else:
         v = {"base": "sub", "sub_seed": r.randrange(2**40), "lo": 2, "hi": 6, "n_edits": 2, "edits_seed": r.randrange(2**40)}
     v.pop("split", None)
+    v.pop("repeat", None)
     return v
 
 
@@ -240,15 +260,17 @@ def execute(h: Dict[str, Any]) -> Dict[str, Any]:
     viol: List[Dict[str, str]] = []
     probes = {k: 0 for k in ["stale_owned_placed", "stale_realname_placed", "stale_casename_placed", "foreign_placed", "empty_pkg_dir_placed", "committed_copy_placed",
                              "cleanup_removed_stale", "stale_overwritten", "fault_fired", "fault_not_reached", "faulted_run_failed",
-                             "faulted_run_left_partial", "other_plugin_tree", "merge_files", "different_model_before", "listing_permuted",
+                             "faulted_run_left_partial", "other_plugin_tree", "merge_files", "model_path_repeated", "different_model_before", "listing_permuted",
                              "test_dir_used", "uuid_checked", "ascii_locale", "clock_shifted", "long_output_path", "crlf_main_rs", "symlinked_output_dir", "python_optimize", "path_spelled_relative_or_odd", "other_machine_identity"]}
     faults_fired: Dict[str, int] = {}
     evlog: List[Any] = []
     try:
-        files_M = w.write_models("M", build_model(h["model"]))
-        files_ref = w.write_models("elsewhere/ref-copy", build_model(h["model"]))  # same bytes, another path
+        files_M = path_list(w.write_models("M", build_model(h["model"])), h["model"])
+        files_ref = path_list(w.write_models("elsewhere/ref-copy", build_model(h["model"])), h["model"])  # same bytes, another path
         if len(files_M) > 1:
             probes["merge_files"] += 1
+        if len(set(files_M)) < len(files_M):
+            probes["model_path_repeated"] += 1
         # ---- reference: clean room -----------------------------------------------------------------
         ref_out = w.path("ref_out")
         ref_td = w.path("ref_td")
@@ -328,12 +350,12 @@ def execute(h: Dict[str, Any]) -> Dict[str, Any]:
                 _place(op[1], op[2], plugin, out, probes)
                 evlog.append(["PLACE", op[1]])
             elif op[0] == "RUN_OTHER":
-                f2 = w.write_models(f"other{i}", build_model(op[2]))
+                f2 = path_list(w.write_models(f"other{i}", build_model(op[2])), op[2])
                 r2 = gw.run_generator(w, op[1], str(out), str(w.path("td_other")), f2, op[3])
                 probes["other_plugin_tree"] += 1
                 evlog.append(["RUN_OTHER", op[1], r2["rc"]])
             elif op[0] == "RUN":
-                fp = w.write_models(f"pre{i}", build_model(op[1]))
+                fp = path_list(w.write_models(f"pre{i}", build_model(op[1])), op[1])
                 if op[1] != h["model"]:
                     probes["different_model_before"] += 1
                 fault = dict(op[3]) if op[3] else None
@@ -478,7 +500,8 @@ def minimise(h: Dict[str, Any], sig: str) -> Tuple[Dict[str, Any], Dict[str, Any
         lambda c: c.update(out_odd=False),
         lambda c: c.update(crlf_main=False),
         lambda c: c.update(out_symlink=False),
-        lambda c: c["model"].pop("split", None),
+        lambda c: c["model"].pop("repeat", None),
+        lambda c: (c["model"].pop("split", None), c["model"].pop("repeat", None)),
         lambda c: c["model"].pop("compact", None),
         lambda c: c["model"].update(n_edits=0),
         lambda c: c["model"].update(lo=2, hi=2),
